@@ -1,9 +1,8 @@
-import Gzx.Util
+import Gzx.Driver.C01
 namespace Gzx.Driver.C05
 open Gzx
 
-/-- line-protocol handler of suite `c05` (arguments after the suite name) -/
-def handle : List String → String
-  | _ => "bad-op"
+/-- suite `c05` shares the decoder-layer commands of `c01` (fmt, ver, deint, cw, decode, rs) -/
+def handle (args : List String) : String := C01.handle args
 
 end Gzx.Driver.C05
